@@ -95,6 +95,12 @@ def directed_histories():
                 {"a": "ParamChange", "pkey": "halfLife", "v": 3600},
                 {"a": "RelayPay", "cons": "C1", "spec": "S1", "prov": "P1", "cu": 10}, ne,
                 me, p10, ne, me, p10, ne, ne])
+    # a month whose only relays are 1-CU relays with a bad QoS report: the tracked-CU entry exists but its value is 0;
+    # RewardAndResetCuTracker (end-block timer a month + blocksToSave later) must return the credit, not divide by it
+    out.append([{"a": "SubBuy", "creator": "C2", "cons": "C2", "plan": "PL1", "months": 2, "auto": False}, ne,
+                {"a": "RelayPay", "cons": "C2", "spec": "S1", "prov": "P1", "cu": 1, "qos": "bad"},
+                {"a": "RelayPay", "cons": "C2", "spec": "S1", "prov": "P2", "cu": 1, "qos": "bad"},
+                me, p10, me, p10, me, p10, ne, ne, ne, ne, ne, ne])
     return out
 
 
